@@ -10,7 +10,15 @@ func assume(xs ...string) []string { return append(append([]string{}, xs...), co
 const modelAssumption = "the reference model (harness/spec) is a faithful transcription of the WHATWG URL Standard snapshot of 24 May 2023; it reproduces every pinned WPT parse and setter vector on each run (self-check), and the UTS #46 mapping of non-ASCII / ACE labels is delegated to the implementation's own ToASCII as the property allows"
 
 var configs = map[string]config{
-	"C01": {Tests: "^TestC01$", QuickChecks: 60000, ThoroughChecks: 600000, QuickShards: 4, ThoroughShards: 16,
+	"C01": {Tests: "^TestC01$", QuickChecks: 60000, ThoroughChecks: 600000, QuickShards: 8, ThoroughShards: 16,
 		Fuzz: []string{"FuzzC01"}, FuzzSeconds: 90,
 		Assumptions: assume(modelAssumption, "inputs are bounded to a few hundred bytes; the empty base string means 'no base' as in the package API")},
+	"C03": {Tests: "^TestC03$", QuickChecks: 40000, ThoroughChecks: 400000, QuickShards: 8, ThoroughShards: 16,
+		Assumptions: assume("the reference model is used only to compute the exemption (states where the standard's own algorithms do not round-trip); the obligation itself is a model-free round trip", "histories are bounded to 8 setter calls")},
+	"C04": {Tests: "^TestC04$", QuickChecks: 40000, ThoroughChecks: 400000, QuickShards: 8, ThoroughShards: 16,
+		Assumptions: assume("the validity predicate is written from the property statement and the standard's definitions of the percent-encode and forbidden code point sets; an empty-but-present query or fragment is not visible through Search()/Hash(), so the composition accepts both spellings", "histories are bounded to 10 steps")},
+	"C05": {Tests: "^TestC05$", QuickChecks: 40000, ThoroughChecks: 300000, QuickShards: 8, ThoroughShards: 16,
+		Assumptions: assume(modelAssumption, "histories are bounded to 8 setter calls")},
+	"C19": {Tests: "^TestC19$", QuickChecks: 40000, ThoroughChecks: 400000, QuickShards: 8, ThoroughShards: 16,
+		Assumptions: assume("expected values are recomputed from Hostname, Port, Protocol and Href only; the six special schemes and their default ports are those of the standard (default parser)", "histories are bounded to 10 steps")},
 }
